@@ -44,6 +44,8 @@ type Outcome struct {
 	Classes []string
 	// Summary is a short description of what was observed (kept for samples).
 	Summary any
+	// Counters are summed over all cases (e.g. operations executed / operations that were no-ops).
+	Counters map[string]int
 	// Known is set when the failure matches a listed known finding (Err is then
 	// reported as KNOWN-FINDING, not as a violation).
 	Known string
@@ -65,6 +67,7 @@ type fragment struct {
 	Evaluations int            `json:"evaluations"`
 	Nontrivial  []string       `json:"nontrivial_hashes"`
 	Classes     map[string]int `json:"classes"`
+	Counters    map[string]int `json:"counters"`
 	Skips       map[string]int `json:"skips"`
 	Samples     []any          `json:"samples"`
 	Violations  int            `json:"violations"`
@@ -103,6 +106,9 @@ func (r *runner[S]) account(s S, js []byte, o Outcome) {
 	r.frag.Evaluations++
 	for _, c := range o.Classes {
 		r.frag.Classes[c]++
+	}
+	for k, v := range o.Counters {
+		r.frag.Counters[k] += v
 	}
 	if o.Skip != "" {
 		r.frag.Skips[o.Skip]++
@@ -189,7 +195,7 @@ func (r *runner[S]) exec(s S) (Outcome, []byte) {
 func Run[S any](t *testing.T, p Prop[S]) {
 	start := time.Now()
 	r := &runner[S]{p: p, out: os.Getenv("VERIF_OUT"), seen: map[[8]byte]struct{}{}, maxSamp: 4}
-	r.frag = fragment{Property: p.ID, Classes: map[string]int{}, Skips: map[string]int{}, Rule: p.Rule, Samples: []any{}, Known: []string{}}
+	r.frag = fragment{Property: p.ID, Classes: map[string]int{}, Counters: map[string]int{}, Skips: map[string]int{}, Rule: p.Rule, Samples: []any{}, Known: []string{}}
 	if r.out != "" {
 		_ = os.MkdirAll(r.out, 0o755)
 		r.cur, _ = os.OpenFile(filepath.Join(r.out, "current.bin"), os.O_CREATE|os.O_RDWR|os.O_TRUNC, 0o644)
